@@ -893,6 +893,7 @@ Section Create.
     clearbody a b.
     assert (Hnl : forall e : exn, Raise (A := unit) X_Netlink = Raise e -> e = X_Other \/ e = X_Netlink).
     { intros e He. inversion He. right; reflexivity. }
+    apply wp_bind, wp_guard; [intros _|intros _; apply Hnil; [exact Ht1|right; reflexivity]].
     apply wp_bind, wp_draw_verdict; [intros v1 s2 Ht2|intros s2 Ht2; apply Hnil; [eapply tonly_trans; eassumption|left; reflexivity]].
     apply wp_bind, wp_emit. intros s3 Hf3.
     assert (F3 : fr s s3 [K_add a v1]) by (eapply tonly_fr; [eapply tonly_trans; eassumption|exact Hf3]).
